@@ -82,6 +82,14 @@ def rres_lit(ok, val):
         return 'RFuel'
 
 
+def node_or_bad(v):
+    """implementation value -> node literal; anything that is not Micheline becomes a literal that matches nothing"""
+    try:
+        return cnode(lib.canon_micheline(v))
+    except Exception:  # noqa: BLE001
+        return '(NByt [xba; xad])'
+
+
 def op_lit(o):
     if o[0] == 'register':
         return f'(Register {cnode(lib.canon_micheline(o[1]))})'
@@ -224,7 +232,11 @@ def run_history(ops, preset=None):
             outs.append(lib.call(ctx.resolve_global_constants, o[1]))
         else:
             ctx.reset()
-    return outs, dict(ctx.global_constants)
+    try:
+        final = dict(ctx.global_constants)
+    except Exception:  # noqa: BLE001
+        final = {}
+    return outs, final
 
 
 def spec_history(ops, preset=None):
@@ -323,7 +335,7 @@ def run(ctx: lib.Ctx) -> None:
         lit_in = (f'({clist("(" + chex(k) + ", " + chex(v.encode()) + ")" for k, v in tbl.items())}, '
                   f'{clist(op_lit(o) for o in pre_ops + list(ops))}, {clist(chex(p.encode()) for p in probes)})')
         lit_out = (f'({clist(rres_lit(ok, val) for ok, val in outs)}, '
-                   f'{clist(copt(cnode(lib.canon_micheline(final[p]))) if p in final else "None" for p in probes)})')
+                   f'{clist(copt(node_or_bad(final[p])) if p in final else "None" for p in probes)})')
         cases.append((lit_in, lit_out))
         meta.append((ops, preset, outs, final))
 
@@ -339,8 +351,11 @@ def run(ctx: lib.Ctx) -> None:
             elif not ok and s_ok:
                 violate('resolve_global_constants fails although every reference is registered', rep)
             elif ok:
-                cv, cs = lib.canon_micheline(val), lib.canon_micheline(s_val)
-                if has_constant(cv):
+                okc, cv = lib.call(lib.canon_micheline, val)
+                cs = lib.canon_micheline(s_val)
+                if not okc:
+                    violate('resolve_global_constants returned something that is not a Micheline expression', rep)
+                elif has_constant(cv):
                     violate('a constant node remains after expansion', rep)
                 elif cv != cs:
                     violate('expansion differs from the registered expressions / changes something else', rep)
@@ -373,10 +388,11 @@ def run(ctx: lib.Ctx) -> None:
         script = [{'prim': 'parameter', 'args': [r(ty)]}, {'prim': 'storage', 'args': [r({'prim': 'int'})]},
                   {'prim': 'code', 'args': [[body[0], {'prim': 'PUSH', 'args': [r({'prim': 'int'}), r(val)]}, r(body[2]), body[3]]]}]
         ok, ci = lib.call(ContractInterface.from_micheline, script, c)
-        got = (True, ci.context.script['code']) if ok else (False, ci)
+        got = lib.call(lambda: ci.context.script['code']) if ok else (False, ci)
+        ok = got[0]
         ctx.case(json.dumps(script, sort_keys=True), kind='from_micheline:' + ('ok' if ok else 'raises'))
         want = spec_resolve(regs, script)
-        if not ok or lib.canon_micheline(got[1]) != lib.canon_micheline(want):
+        if not ok or lib.call(lib.canon_micheline, got[1]) != (True, lib.canon_micheline(want)):
             violate('ContractInterface.from_micheline does not expand the constants of the script',
                     {'script': script, 'registered': regs, 'result': repr(got[1])[:2000], 'expected': want,
                      'repro': 'ContractInterface.from_micheline(script, context).context.script["code"]'})
